@@ -20,6 +20,18 @@ type Account struct {
 	readOffset int // Internal offset to track read progress
 }
 
+// MarshalYAML writes the account as its fields, with the free-text ones protected against the values the YAML encoder
+// cannot write back faithfully (see yamlString).
+func (a Account) MarshalYAML() (interface{}, error) {
+	return struct {
+		Login    interface{}  `yaml:"Login"`
+		Name     interface{}  `yaml:"Name"`
+		Password string       `yaml:"Password"`
+		Access   AccessBitmap `yaml:"Access"`
+		FileRoot interface{}  `yaml:"FileRoot"`
+	}{yamlString(a.Login), yamlString(a.Name), a.Password, a.Access, yamlString(a.FileRoot)}, nil
+}
+
 func NewAccount(login, name, password string, access AccessBitmap) *Account {
 	return &Account{
 		Login:    login,
